@@ -142,7 +142,8 @@ class Spec(core.PropSpec):
         epochs = rw.choice([1, 2, 3]) if kind == "epochs" else None
         if kind == "epochs":
             n_batches = epochs * rw.randint(1, 4)
-        return dict(cls="schedule", inner=inner, schedule=rw.choice(SCHEDULES), K=rw.choice([0, 1, 2, 2, 3, 4]), B=B, n_batches=n_batches,
+        rem = rw.choice([0, 0, 1, B - 1, rw.randint(0, B - 1)]) if B > 1 else 0  # samples dropped per epoch under drop_last
+        return dict(cls="schedule", rem=rem, inner=inner, schedule=rw.choice(SCHEDULES), K=rw.choice([0, 1, 2, 2, 3, 4]), B=B, n_batches=n_batches,
                     hook=kind, epochs=epochs, drop_last=rw.random() < 0.5, prefetch=rw.choice([1, 2, 3]), seed=ro.randint(0, 10 ** 6),
                     sched_seed=ro.getrandbits(32), perm_seed=ro.getrandbits(16))
 
@@ -152,7 +153,7 @@ class Spec(core.PropSpec):
                 yield dict(plan, spec=s)
             yield from core.generic_candidates(plan, [["ops"]], [(["seed"], 0)])
         else:
-            yield from core.generic_candidates(plan, [], [(["K"], 0), (["B"], 1), (["n_batches"], 1), (["prefetch"], 1), (["epochs"], 1)])
+            yield from core.generic_candidates(plan, [], [(["K"], 0), (["B"], 1), (["n_batches"], 1), (["prefetch"], 1), (["epochs"], 1), (["rem"], 0)])
             if plan["schedule"] != "default":
                 yield dict(plan, schedule="default")
 
@@ -377,6 +378,9 @@ class Spec(core.PropSpec):
                 out.rejected = True
                 return
             N = (NB // E) * B
+            n_used = N
+            if plan["drop_last"]:
+                N += plan.get("rem", 0) % B  # the dropped remainder of every epoch: all delivered batches are still full
             hook_kw = dict(batch_size=B, epochs=E, dataset_len=N, world_size=1, drop_last=plan["drop_last"])
         elif plan["hook"] == "updates":
             N = NB * B
@@ -392,7 +396,7 @@ class Spec(core.PropSpec):
         while len(batches) < NB:
             perm = list(range(N))
             prng.shuffle(perm)
-            batches += [perm[i:i + B] for i in range(0, N, B)]
+            batches += [perm[i:i + B] for i in range(0, N - N % B, B)]  # drop_last: only full batches
         batches = batches[:NB]
 
         class Ld(SimDataLoader):
